@@ -14,6 +14,7 @@ PLAN.json (all optional):
   break_apply  : {mod, salt}  make apply_simp raise for some candidates (inside the workers)
   observe_file : true  during every write of the output file, read the file at every traced line; contents other than the previous and the new one are listed in after.json 'torn'
   check_tables : true  at every ddmin TaskGenerator construction compare get_sort/get_bv_width of every node with the answers after a fresh collect_information; differences in after.json 'stale_answers'
+  fail_write   : k  the k-th write of the output file raises OSError before anything is written
   keep_texts   : true  after.json gets 'writes_text', the rendering of every accepted input
   parse_only   : true  stop when the input has been read; after.json gets 'parsed' (nested lists)
   fixpoint     : {spec, opts}  after main(): enumerate every proposal on the
@@ -153,6 +154,10 @@ def main():
             state['writes_log'].append(dg)
             if trace:
                 emit(dict(e='Wb', cand=dg, tok=tokdigest(exprs), n=state['writes'], ids_distinct=ids_distinct(exprs)))
+            if plan.get('fail_write') == state['writes']:
+                # the file system refuses this one write (disk full, directory gone, ...)
+                state['write_failed'] = state['writes']
+                raise OSError(28, 'No space left on device (injected by the harness)')
         observe = plan.get('observe_file')
         if is_out and observe:
             def snap():
@@ -400,6 +405,8 @@ def main():
     for k_ in ('stale_answers', 'table_checks', 'table_check_errors'):
         if k_ in state:
             after[k_] = state[k_]
+    if 'write_failed' in state:
+        after['write_failed'] = state['write_failed']
     if plan.get('keep_texts'):
         after['writes_text'] = state['writes_text']
     if 'torn' in state:
